@@ -47,6 +47,11 @@ def gen(tier, seed):
               "    from harness.c04lib import abi_k_mixed", "    return abi_k_mixed(u1, (u1 * 5 + 2) % 11, opt, g)", ""])
     conds.append({"fn": "h_abi_k_mixed", "what": "the per-environment rate constants of a reaction (orders 1 and 2, three environments, entries written in different units) reach the native engine with their physical values, entry by entry",
                   "sig": "c19-abi-rate-constants", "structure": "reactions", "enumerate": True, "viol": "the rate-constant vector handed to the engine is not the per-environment constants of the reactions"})
+    add("K_dict_units", "c19-K", "K_dict_units(f1, f2, 'ABG'[u])", ["pre: 0 <= f1 <= 3 and 0 <= f2 <= 3 and 0 <= u <= 2"],
+        "per-environment constants written with their own units (M-1.s-1, µm3/molecule/s, mM-1.min-1, bare; min-1, ms-1, h-1, bare) under 3 reaction systems: every K[e] is the physical ratio kf[e]/kr[e], "
+        "equal to the scalar form's K for the same constants and to the ratio of the split halves' constants", "f1: int, f2: int, u: int",
+        viol="the per-environment equilibrium constant is not the physical ratio of the two constants when they are written in other units than the reaction's")
+    conds[-1]["enumerate"] = True
     add("split_after_edit", "c19-split-after-edit", "split_after_edit(how, form, 'ABG'[u])", ["pre: 0 <= how <= 4 and 0 <= form <= 1 and 0 <= u <= 2"],
         "a Reaction whose constants are edited AFTER split() / K were evaluated once (kf setter, kr setter, set_k, units system replaced, dictionary edited in place; scalar and per-environment values; 3 unit systems) "
         "splits into the halves of a fresh reaction with the edited content, and K is the ratio of the current constants", "how: int, form: int, u: int",
